@@ -387,7 +387,7 @@ class BaseParser:
         excluded_keys: List[str] = None,
     ):
         options = context.options
-        if options.max_params:
+        if options.max_params is not None:
             if len(data) > options.max_params:
                 context.handle_error(
                     exc.ParamsExceedError(
